@@ -1332,6 +1332,11 @@ def rule_elementwise(rep, pdb, fn, container_param=0, key="elementwise"):
                 det.append("%s=%s" % (d, g))
         elif tty == "vector::Vector" or True:
             g = same_dim(pdb, ctx, e.node, SIZE(target_owner), SIZE(src)) or same_dim(pdb, ctx, e.node, LEN(target_owner), LEN(("field", src, "vec")))
+            if not g:
+                # the consumed operand's own storage, moved instead of cloned: `let mut out = self.vec;`
+                tb_ = ctx.binds.get(target_owner[1])
+                ti_ = ctx.term(tb_.init) if tb_ is not None and tb_.init is not None else None
+                g = ti_ in (("field", src, "vec"), src) and not [a_ for a_ in ctx.assigns.get(target_owner[1], []) if a_.get("k") == "Assign" and strip(a_["l"]).get("k") == "Local"]
             ok_s = g
             det.append("len=%s" % g)
         rep.add("%s-shape/%s" % (key, path), "the fresh result has the dimensions of the container operand", ok_s, e.node, " ".join(det))
